@@ -161,9 +161,9 @@ class SqlParseLineageAnalyzer(LineageAnalyzer):
                 for c in comparisons:
                     # without a target table identified, there's no column lineage to build
                     if holder.write and isinstance(right := c.right, Identifier):
-                        src_col = Column(right.get_real_name())
+                        src_col = Column(right.get_real_name() or right.value)
                         src_col.parent = direct_source
-                        tgt_col = Column(c.left.get_real_name())
+                        tgt_col = Column(c.left.get_real_name() or c.left.value)
                         tgt_col.parent = list(holder.write)[0]
                         holder.add_column_lineage(src_col, tgt_col)
             elif insert_flag:
@@ -175,7 +175,9 @@ class SqlParseLineageAnalyzer(LineageAnalyzer):
                     elif isinstance(t, IdentifierList):
                         identifiers.extend(t.get_identifiers())
                     for identifier in identifiers:
-                        tgt_col = Column(identifier.get_real_name())
+                        tgt_col = Column(
+                            identifier.get_real_name() or identifier.value
+                        )
                         tgt_col.parent = list(holder.write)[0]
                         insert_columns.append(tgt_col)
                 elif insert_columns and isinstance(token, Values):
@@ -192,7 +194,10 @@ class SqlParseLineageAnalyzer(LineageAnalyzer):
                                     # more values than insert columns
                                     break
                                 if isinstance(identifier, Identifier):
-                                    src_col = Column(identifier.get_real_name())
+                                    src_col = Column(
+                                        identifier.get_real_name()
+                                        or identifier.value
+                                    )
                                     src_col.parent = direct_source
                                     holder.add_column_lineage(
                                         src_col, insert_columns[i]
